@@ -41,6 +41,9 @@ type COS struct {
 	User       string `json:"user"`
 	Password   string `json:"password"`
 	ReadSize   int    `json:"read_size"`
+	// PeerExits (raw leg): the stand-in peer exits by itself once it has sent its bytes and seen
+	// the client's end marker; the client starts reading only afterwards
+	PeerExits bool `json:"peer_exits,omitempty"`
 	Netconf    bool   `json:"netconf,omitempty"` // raw leg: start the child through the netconf-subsystem path
 	Reopen     bool   `json:"reopen,omitempty"`  // raw leg: the transport object was opened and closed once before
 	ToSrv      []int  `json:"to_server,omitempty"`
@@ -67,6 +70,7 @@ func genCOS(prop string, legs []string) func(seed uint64, run int, tier string) 
 		if sc.Leg == "raw" {
 			sc.Netconf = r.IntN(2) == 0
 			sc.Reopen = r.IntN(3) == 0
+			sc.PeerExits = r.IntN(4) == 0
 			around := func() int {
 				n := pick(r, 1, sc.ReadSize-1, sc.ReadSize, sc.ReadSize+1, 2*sc.ReadSize+3, between(r, 1, 3000), 1024*between(r, 1, 9), 4096)
 				if n > 20000 {
@@ -323,8 +327,21 @@ func runCOSOpenSSH(env *Env, sc *COS, dir string) {
 	opts := append([]util.Option{
 		options.WithTransportType(transport.SystemTransport), options.WithPort(port), options.WithAuthUsername(sc.User),
 		options.WithAuthPassword(sc.Password), options.WithTimeoutOps(15 * time.Second), options.WithTimeoutSocket(10 * time.Second),
-		options.WithSystemTransportOpenArgs([]string{"-o", "PreferredAuthentications=password", "-o", "PubkeyAuthentication=no"}),
 	}, extra...)
+	keyFP := ""
+	if sc.WithKey {
+		// key and password both configured, the server takes the key only: the configured key
+		// must be what gets the client in
+		signer, pem := peer.NewClientKey()
+		keyPath := filepath.Join(dir, "id_ed25519")
+		_ = os.WriteFile(keyPath, pem, 0o600)
+		srv.Users = map[string]string{}
+		srv.AuthKeys[sc.User] = signer.PublicKey()
+		keyFP = ssh.FingerprintSHA256(signer.PublicKey())
+		opts = append(opts, options.WithAuthPrivateKey(keyPath, ""))
+	} else {
+		opts = append(opts, options.WithSystemTransportOpenArgs([]string{"-o", "PreferredAuthentications=password", "-o", "PubkeyAuthentication=no"}))
+	}
 	d, err := generic.NewDriver("127.0.0.1", opts...)
 	if err != nil {
 		env.Res.HarnessError = err.Error()
@@ -337,9 +354,9 @@ func runCOSOpenSSH(env *Env, sc *COS, dir string) {
 		prompt, _ = d.GetPrompt()
 		_ = d.Close()
 	}
-	user, passwords, _, _, _, hsErr := srv.Snapshot()
+	user, passwords, keys, _, _, hsErr := srv.Snapshot()
 	env.Context = func() string {
-		return fmt.Sprintf("open err=%v prompt=%q server: user=%q passwords=%d handshake err=%v\n", openErr, prompt, user, len(passwords), hsErr)
+		return fmt.Sprintf("open err=%v prompt=%q server: user=%q passwords=%d keys=%v handshake err=%v key-auth=%v\n", openErr, prompt, user, len(passwords), keys, hsErr, sc.WithKey)
 	}
 	want := !sc.Strict || sc.KnownHosts == "has"
 	if (openErr == nil) != want {
@@ -360,7 +377,18 @@ func runCOSOpenSSH(env *Env, sc *COS, dir string) {
 
 		return
 	}
-	if user != sc.User || len(passwords) == 0 || passwords[len(passwords)-1] != sc.Password {
+	if sc.WithKey {
+		env.Probe("openssh-key-auth")
+		offered := false
+		for _, k := range keys {
+			if k == keyFP {
+				offered = true
+			}
+		}
+		if user != sc.User || !offered {
+			env.Fail("openssh-identity", "system", "server saw user %q and keys %v, the configured key is %s", user, keys, keyFP)
+		}
+	} else if user != sc.User || len(passwords) == 0 || passwords[len(passwords)-1] != sc.Password {
 		env.Fail("openssh-identity", "system", "server saw user %q and %d password offers", user, len(passwords))
 	}
 	if strings.TrimSpace(prompt) != "srv#" {
@@ -390,6 +418,10 @@ func runCOSRaw(env *Env, sc *COS, dir string) {
 	os.Setenv("FAKESSH_TO", fmt.Sprint(toTotal))
 	const endMarker = "\x01\x02END-OF-C16S-WRITES\x03\x04"
 	os.Setenv("FAKESSH_END", endMarker)
+	os.Unsetenv("FAKESSH_EXIT")
+	if sc.PeerExits {
+		os.Setenv("FAKESSH_EXIT", "1")
+	}
 	li, _ := logging.NewInstance()
 	topts := []util.Option{options.WithSystemTransportOpenBin(fakessh()), options.WithTransportReadSize(sc.ReadSize)}
 	if sc.Netconf {
@@ -471,6 +503,16 @@ func runCOSRaw(env *Env, sc *COS, dir string) {
 		// the end marker, in a write of its own: the peer reports what it got in front of it
 		wdone <- tr.Write([]byte(endMarker))
 	}()
+	if sc.PeerExits {
+		// let the peer finish and leave before the first byte of its payload is read
+		select {
+		case <-wdone:
+			wdone <- nil
+		case <-time.After(5 * time.Second):
+		}
+		time.Sleep(300 * time.Millisecond)
+		env.Probe("peer-left-before-its-output-was-read")
+	}
 	for len(got) < total && time.Now().Before(deadline) {
 		b, err := tr.Read()
 		got = append(got, b...)
